@@ -31,9 +31,16 @@ theorem ctor_written_ge (input : ArrDesc) (ops : List HeapOp) :
 theorem ctor_result_fresh (input : ArrDesc) :
     input.buf < (heapRun ctorOps1D input).cur.buf ∧ input.buf < (heapRun ctorOps2DRows input).cur.buf ∧
     input.buf < (heapRun ctorOps2DCols input).cur.buf := by
-  rcases input with ⟨b, c, f, a⟩
-  cases c <;> cases f <;> cases a <;> simp [heapRun, heapStep, ctorOps1D, ctorOps2DRows, ctorOps2DCols] <;> omega
+  rcases input with ⟨b, c, fc, f, a⟩
+  cases c <;> cases fc <;> cases f <;> cases a <;> simp [heapRun, heapStep, ctorOps1D, ctorOps2DRows, ctorOps2DCols] <;> omega
 
+/-- the aliasing model is sharp enough to exhibit the defect class it guards against: with an in-place sanitiser a
+    Fortran-ordered N×2 float64 array (its `.T` is C-contiguous, so nothing is copied) would be written -/
+theorem inplace_would_write_fortran_Nx2 :
+    (0 : ℕ) ∈ (heapRun [HeapOp.asarray, .transposeView, .ascontig64, .nanToNumInPlace] ⟨0, false, true, true, true⟩).written := by
+  decide
+
+#print axioms inplace_would_write_fortran_Nx2
 #print axioms ctor_ops_copying
 #print axioms ctor_writes_nothing
 #print axioms ctor_written_ge
